@@ -14,7 +14,8 @@ class Spec(c01.Spec):
     runs = {'quick': 24000, 'thorough': 1500000}
     families = [{'label': 'well-formed', 'family': 'well'},
                 {'label': 'malformed-returns', 'family': 'malformed'},
-                {'label': 'unmergeable-updates', 'family': 'unmergeable'}]
+                {'label': 'unmergeable-updates', 'family': 'unmergeable'},
+                {'label': 'tasks-calling-sys-exit', 'family': 'exiting'}]
     rule = c01.Spec.rule + ('; the final status map and the per-task '
                             'execution counters are compared with a '
                             'sequential reference model of the graph')
